@@ -157,9 +157,70 @@ func (w *World) rulesAutomaton(p *Pkg, m *parseModel, add func(ok bool, rule, in
 	// statements of the element block that precede the split and speak about
 	// the cursor only (e.g. `if group >= len(order) { return … }`) belong to
 	// the step; the others (the byte scanner) must not write the cursor
+	// variables that carry (parts of) the input: the parameter, the loop's own
+	// variables, and whatever is computed from them
+	inputVar := map[types.Object]bool{m.param: true}
+	switch lp := m.loop.(type) {
+	case *ast.RangeStmt:
+		for _, e := range []ast.Expr{lp.Key, lp.Value} {
+			if e != nil {
+				if o := identObj(info, e); o != nil {
+					inputVar[o] = true
+				}
+			}
+		}
+	case *ast.ForStmt:
+		if as, ok := lp.Init.(*ast.AssignStmt); ok {
+			for _, l := range as.Lhs {
+				if o := identObj(info, l); o != nil && !cand[o] {
+					inputVar[o] = true
+				}
+			}
+		}
+	}
+	for changed := true; changed; {
+		changed = false
+		ast.Inspect(fd.Body, func(n ast.Node) bool {
+			as, ok := n.(*ast.AssignStmt)
+			if !ok {
+				return true
+			}
+			tainted := false
+			for _, r := range as.Rhs {
+				ast.Inspect(r, func(x ast.Node) bool {
+					if id, ok := x.(*ast.Ident); ok && inputVar[info.Uses[id]] {
+						tainted = true
+					}
+					return true
+				})
+			}
+			if tainted {
+				for _, l := range as.Lhs {
+					if o := identObj(info, l); o != nil && !inputVar[o] && !cand[o] {
+						if _, isIface := o.Type().Underlying().(*types.Interface); isIface {
+							continue // an error value carries no input text
+						}
+						inputVar[o] = true
+						changed = true
+					}
+				}
+			}
+			return true
+		})
+	}
+	mentionsInput := func(s ast.Node) bool {
+		found := false
+		ast.Inspect(s, func(n ast.Node) bool {
+			if id, ok := n.(*ast.Ident); ok && inputVar[info.Uses[id]] {
+				found = true
+			}
+			return true
+		})
+		return found
+	}
 	var preStep []ast.Stmt
 	for _, s := range pre {
-		if !foreignLocal(s) {
+		if !mentionsInput(s) {
 			mentions := false
 			ast.Inspect(s, func(n ast.Node) bool {
 				if id, ok := n.(*ast.Ident); ok && cand[info.Uses[id]] {
@@ -211,9 +272,12 @@ func (w *World) rulesAutomaton(p *Pkg, m *parseModel, add func(ok bool, rule, in
 	post = dropForeign(post)
 	tail = dropForeign(tail)
 	setFn := p.method("Set")
+	setFails := false // second pass: Set refuses the value of a known metric
+	setCalls := 0
 	hook := func(e *cEnv, call *ast.CallExpr, fn *types.Func, args []Val) (Val, bool, error) {
 		if p.FuncObj[fn] == setFn && setFn != nil {
-			if len(args) == 2 && args[0].K == VStr && sm.ByLabel[args[0].S] != nil {
+			setCalls++
+			if !setFails && len(args) == 2 && args[0].K == VStr && sm.ByLabel[args[0].S] != nil {
 				return Val{K: VNil}, true, nil
 			}
 			return Val{K: VOpaque, S: "set-error"}, true, nil
@@ -227,7 +291,35 @@ func (w *World) rulesAutomaton(p *Pkg, m *parseModel, add func(ok bool, rule, in
 	}
 	// every other local of ParseVector (pooled buffers, the split parts, ...) is an
 	// opaque value: it cannot influence the cursor
+	// locals declared `var x T` (no initialiser) before the loop start at T's zero value
+	zeroDecl := map[types.Object]bool{}
+	for _, s := range fd.Body.List {
+		if s == m.loop {
+			break
+		}
+		if ds, ok := s.(*ast.DeclStmt); ok {
+			if gd, ok := ds.Decl.(*ast.GenDecl); ok && gd.Tok == token.VAR {
+				for _, sp := range gd.Specs {
+					vs := sp.(*ast.ValueSpec)
+					if len(vs.Values) == 0 {
+						for _, nm := range vs.Names {
+							if o := info.Defs[nm]; o != nil {
+								zeroDecl[o] = true
+							}
+						}
+					}
+				}
+			}
+		}
+	}
 	bindOpaque := func(ce *cEnv) {
+		for o := range zeroDecl {
+			if _, has := ce.vars[o]; !has {
+				if _, isState := init[o]; !isState {
+					ce.vars[o] = zeroOf(o.Type())
+				}
+			}
+		}
 		ast.Inspect(fd.Body, func(n ast.Node) bool {
 			if id, ok := n.(*ast.Ident); ok {
 				if o, ok := info.Defs[id].(*types.Var); ok && o != nil {
@@ -284,6 +376,20 @@ func (w *World) rulesAutomaton(p *Pkg, m *parseModel, add func(ok bool, rule, in
 			}
 			return outcome{kind: "accept"}, nil
 		case cBreak:
+			// the loop is left: what the function answers is decided by the statements after it
+			pct, pv, perr := ce.execBlock(post)
+			if perr != nil {
+				if pe, ok := perr.(*panicked); ok {
+					return outcome{kind: "panic", msg: pe.msg + " at " + p.posAt(pe.pos)}, nil
+				}
+				return outcome{}, perr
+			}
+			if pct == cReturn && pv.K == VTuple && len(pv.T) == 2 {
+				if pv.T[1].K != VNil {
+					return outcome{kind: "error", err: pv.T[1].S}, nil
+				}
+				return outcome{kind: "loopexit"}, nil // success before the input is exhausted
+			}
 			return outcome{kind: "loopexit"}, nil
 		}
 		nx := map[types.Object]int64{}
@@ -390,6 +496,12 @@ func (w *World) rulesAutomaton(p *Pkg, m *parseModel, add func(ok bool, rule, in
 	// rejections by kind: in a state with metrics left, in the state where
 	// every metric has been consumed, and at the end of the input
 	midErrs, fullErrs, shortErrs := map[string]int{}, map[string]int{}, map[string]int{}
+	type acceptedStep struct {
+		code map[types.Object]int64
+		abv  string
+		tr   string
+	}
+	var accepted []acceptedStep
 	var under []string
 	for len(queue) > 0 && len(problems) < 5 {
 		cur := queue[0]
@@ -419,6 +531,7 @@ func (w *World) rulesAutomaton(p *Pkg, m *parseModel, add func(ok bool, rule, in
 		}
 		for _, abv := range alphabet {
 			nTrans++
+			setCalls = 0
 			out, err := step(cur.code, abv)
 			if err != nil {
 				add(false, "R01.automaton", "ParseVector.cursor", fd, "cannot tabulate the cursor step (undecided): "+err.Error()+posSuffix(p, err))
@@ -445,10 +558,14 @@ func (w *World) rulesAutomaton(p *Pkg, m *parseModel, add func(ok bool, rule, in
 					}
 				}
 			case "next":
+				if setCalls == 0 {
+					problems = append(problems, fmt.Sprintf("after %s the element %s is consumed without calling Set: its value is never validated or stored", orEmpty(cur.trace), abv))
+				}
 				if !ook {
 					problems = append(problems, fmt.Sprintf("the out-of-order, repeated or unknown metric in %s is accepted", tr))
 				} else {
 					queue = append(queue, pair{code: out.next, oracle: on, trace: tr})
+					accepted = append(accepted, acceptedStep{cur.code, abv, tr})
 				}
 			default:
 				problems = append(problems, fmt.Sprintf("after %s the element %s ends the loop or returns success early", orEmpty(cur.trace), abv))
@@ -467,6 +584,29 @@ func (w *World) rulesAutomaton(p *Pkg, m *parseModel, add func(ok bool, rule, in
 		add(true, "R01.automaton", "ParseVector.cursor", m.loop, fmt.Sprintf("cursor automaton (%d reachable state pairs, %d transitions over %d abbreviations) accepts exactly the specification's order language: mandatory base group, optional metrics/groups in order, each at most once; no table index leaves its bounds; rejections: %s", nStates, nTrans, len(alphabet), strings.Join(errKinds, ", ")))
 	} else {
 		add(false, "R01.automaton", "ParseVector.cursor", m.loop, "the parser's cursor logic differs from the specification's order rule: "+strings.Join(problems, "; "))
+	}
+	// Set's own error (an illegal value) must come back unchanged wherever the
+	// element is otherwise acceptable
+	setFails = true
+	m.autoPropOK = len(accepted) > 0
+	for _, a := range accepted {
+		out, err := step(a.code, a.abv)
+		if err != nil || out.kind != "error" || out.err != "set-error" {
+			m.autoPropOK = false
+			got := out.kind
+			if out.kind == "error" {
+				got = "the error " + out.err
+			}
+			if err != nil {
+				got = "undecided (" + err.Error() + ")"
+			}
+			m.autoPropWhy = fmt.Sprintf("when Set refuses the value of %s (after %s) the parser answers %s instead of returning Set's error", a.abv, orEmpty(strings.TrimSuffix(a.tr, "/"+a.abv)), got)
+			break
+		}
+	}
+	setFails = false
+	if m.autoPropOK {
+		m.autoPropWhy = fmt.Sprintf("in each of the %d acceptable transitions of the cursor automaton, an error of Set is returned unchanged with a nil object", len(accepted))
 	}
 	m.autoDecided = true
 	if len(under) > 3 {
